@@ -363,10 +363,24 @@ pub fn dispatch(op: &str, a: &[&str]) -> Option<Ans> {
         let mut h = [0u8; 24];
         #[cfg(feature = "hooks")]
         dryoc::rng::verif_hooks::set_entropy(Some(hdr.to_vec()));
+        // the states are REUSED ones: both were initialised for another stream (other key, other header) and used once before —
+        // init must replace every part of the state, as libsodium's does
+        {
+            let (k0, h0) = ([0x3cu8; 32], [0x66u8; 24]);
+            crypto_secretstream_xchacha20poly1305_init_pull(&mut s, &h0, &k0);     // (init_pull: draws no entropy)
+            let mut c0 = [0u8; 4 + 17];
+            let _ = crypto_secretstream_xchacha20poly1305_push(&mut s, &mut c0, b"used", None, 0);
+        }
         crypto_secretstream_xchacha20poly1305_init_push(&mut s, &mut h, &key);
         #[cfg(feature = "hooks")]
         dryoc::rng::verif_hooks::set_entropy(None);
         let mut t = State::new();
+        {
+            let (k0, h0) = ([0x3cu8; 32], [0x77u8; 24]);
+            crypto_secretstream_xchacha20poly1305_init_pull(&mut t, &h0, &k0);
+            let (mut m0, mut tg0) = ([0u8; 4], 0u8);
+            let _ = crypto_secretstream_xchacha20poly1305_pull(&mut t, &mut m0, &mut tg0, &[0x21u8; 4 + 17], None);
+        }
         crypto_secretstream_xchacha20poly1305_init_pull(&mut t, &h, &key);
         #[cfg(feature = "hooks")]
         {
